@@ -2,6 +2,9 @@
 // wrap, and (assertion-enabled builds) a thread's quiescent state or pause is
 // rejected precisely when a non-null wrapper created on that thread is alive.
 #include <csetjmp>
+#include <fcntl.h>
+#include <sys/wait.h>
+#include <unistd.h>
 #include <memory>
 #include <optional>
 #include <span>
@@ -146,7 +149,82 @@ struct PtrEngine final : Engine {
       }
       c.threads.push_back(std::move(ops));
     }
+    // allocation-failure probe (assertion-enabled builds, one program in 16): see fault_probe()
+    Rng fr = stream(seed, S_FAULT);
+    if (fr.chance(1.0 / 16)) {
+      c.set_knob("fault_op", static_cast<int64_t>(fr.below(8)));
+      c.set_knob("fault_k", fr.range(1, 3));
+      c.set_knob("fault_then", static_cast<int64_t>(fr.below(2)));
+    }
     return c;
+  }
+
+  // The registry of live wrappers (assertion-enabled builds) allocates. A wrapper operation inside which such an allocation
+  // fails either does not complete (all of them are noexcept: the process ends in std::terminate) or leaves the tracking exact.
+  // Run in a forked child, because the legitimate outcome takes the process down: exit 42 = the operation completed, a
+  // non-null wrapper is alive, and the quiescent state / pause that follows was accepted.
+  static int fault_child(int opk, int k, int then) {
+#ifndef NDEBUG
+    auto& me = unodb::this_thread();
+    static std::byte buf[64];
+    std::optional<Ptr> x, y;
+    std::optional<Span> sp;
+    x.emplace(buf + 3);
+    if (opk == 3) y.emplace();
+    arm_alloc_fault(k, true);
+    try {
+      switch (opk) {
+        case 0: y.emplace(buf + 5); break;
+        case 1: y.emplace(*x); break;
+        case 2: y.emplace(std::move(*x)); break;
+        case 3: *y = *x; break;
+        case 4: ++*x; break;
+        case 5: *x += 2; break;
+        case 6: sp.emplace(std::span<std::byte>(buf + 1, 8)); break;
+        default: { Ptr old = (*x)++; if (old.get() != buf + 3) return 42; break; }
+      }
+    } catch (const std::bad_alloc&) {
+      disarm_alloc_fault();
+      return 0;
+    }
+    const bool fired = alloc_fault_fired();
+    disarm_alloc_fault();
+    if (!fired) return 0;
+    jmp_buf jb;
+    if (setjmp(jb) == 0) {
+      tls_assert_jmp = &jb;
+      if (then == 0) me.quiescent(); else me.qsbr_pause();
+      tls_assert_jmp = nullptr;
+      return 42;  // accepted with a live non-null wrapper
+    }
+    tls_assert_jmp = nullptr;
+    return 0;
+#else
+    (void)opk; (void)k; (void)then;
+    return 0;
+#endif
+  }
+
+  static void fault_probe(const Case& c) {
+    const int opk = static_cast<int>(c.knob("fault_op", 0)), k = static_cast<int>(c.knob("fault_k", 1)), then = static_cast<int>(c.knob("fault_then", 0));
+    fflush(stdout);
+    const pid_t pid = fork();
+    if (pid < 0) return;
+    if (pid == 0) {
+      const int devnull = open("/dev/null", O_WRONLY);
+      if (devnull >= 0) { dup2(devnull, 1); dup2(devnull, 2); }
+      alarm(20);
+      _exit(fault_child(opk, k, then));
+    }
+    int status = 0;
+    waitpid(pid, &status, 0);
+    stats().bump("allocation_failure_probes_in_forked_child");
+    if (!(WIFEXITED(status) && (WEXITSTATUS(status) == 0 || WEXITSTATUS(status) == 42))) stats().bump("allocation_failure_probes_ending_in_terminate");
+    if (WIFEXITED(status) && WEXITSTATUS(status) == 42) {
+      static const char* n[] = {"construct from pointer", "copy-construct", "move-construct", "copy-assign onto a null wrapper", "++p", "p += 2", "span: construct from std::span", "p++"};
+      die("liveness-verdict", std::string("'") + n[opk & 7] + "' completed although allocation #" + std::to_string(k) + " inside it failed, and the " + (then == 0 ? "quiescent()" : "qsbr_pause()") +
+                                  " that followed was accepted with the resulting non-null wrapper alive (it is not tracked)");
+    }
   }
 
   std::string describe(const Op& o) const override {
@@ -308,6 +386,9 @@ struct PtrEngine final : Engine {
   Result run(const Case& c) override {
     Result res;
     run_begin(c, measured_ptr());
+#ifndef NDEBUG
+    if (c.knob("fault_op", -1) >= 0) fault_probe(c);  // before any other thread exists
+#endif
     auto sh = std::make_unique<Shared>();
     for (int b = 0; b < kBufs; b++) for (std::ptrdiff_t i = 0; i < kBufLen; i++) sh->buf[b][i] = static_cast<std::byte>((b * 64 + i) & 0xff);
     for (std::uint32_t i = 0; i < 32; i++) sh->wide[i] = 0x01010101u * i + 7;
